@@ -1,0 +1,5 @@
+//go:build !verif
+
+package merkle
+
+func verifWorkers(ncpu int) int { return ncpu }
